@@ -258,6 +258,14 @@ func scopeName2(part string) []*SrcPkg {
 		p.add(IfaceCase{Name: fmt.Sprintf("N%d", k), Tags: []string{"pat:respkg", nameTag(pn)}, Scope: scope}, decl)
 		k++
 	}
+	// four parameters: generated names that were renumbered meet a package named like one of them
+	for _, x := range []string{"@{~/names/s1}.T", "@{~/names/s2}.T", "@{~/names/s}.T", "@{~/names/err}.T", "@{~/a/foo}.T"} {
+		for _, pat := range [][]string{{"string", "string", x, "string"}, {"string", x, "string", "string"}, {x, "string", "string", "string"}, {"string", "string", "string", x}} {
+			decl := fmt.Sprintf("type N%d interface{ M(%s) (string, error) }", k, strings.Join(pat, ", "))
+			p.add(IfaceCase{Name: fmt.Sprintf("N%d", k), Tags: []string{"pat:4", "ty4:" + x}, Scope: scope}, decl)
+			k++
+		}
+	}
 	small := []string{"", "_", "s", "s1", "s2", "sMoqParam"}
 	for _, n1 := range small {
 		for _, n2 := range small {
@@ -326,58 +334,62 @@ var impPool = []string{
 // the import registry, because go/types sorts methods by name). Each source file imports
 // one package of the selection (unaliased), so same-named packages can coexist; alias
 // modes add source-level aliases.
+// impPkg realises one ordered selection of packages as a source package: one file per
+// import (so same-named packages can be imported unaliased), method A uses the first
+// package, B the second, ... (go/types sorts methods by name, so this is the order in which
+// the packages reach the import registry).
+func impPkg(dir string, sel []string, mode string) *SrcPkg {
+	sp := &SrcPkg{Dir: dir, Name: "src"}
+	var methods []string
+	var tags []string
+	for i, key := range sel {
+		alias := ""
+		switch mode {
+		case "alias-unique":
+			alias = fmt.Sprintf("al%d", i)
+		case "alias-clash": // alias equal to another selected package's name
+			alias = depName(sel[(i+1)%len(sel)])
+			if alias == depName(key) {
+				alias = ""
+			}
+		case "alias-first":
+			if i == 0 {
+				alias = "first"
+			}
+		}
+		al := map[string]string{}
+		if alias != "" {
+			al[key] = alias
+		}
+		tn := "T"
+		if std, ok := map[string]string{"time": "Time", "sync": "Locker", "text/template": "Template", "html/template": "Template"}[key]; ok {
+			tn = std
+		}
+		sp.Files = append(sp.Files, SrcFile{Name: fmt.Sprintf("f%d.go", i), Aliases: al,
+			Decls: fmt.Sprintf("type X%d = @{%s}.%s\n", i, key, tn)})
+		methods = append(methods, fmt.Sprintf("%c(@{%s}.%s)", 'A'+i, key, tn))
+		tags = append(tags, "imp:"+key)
+	}
+	tags = append(tags, "impmode:"+mode, "impseq:"+strings.Join(sel, ","))
+	var embeds []string
+	for i := range sel {
+		sp.Files[i].Decls += fmt.Sprintf("type E%d interface{ %s }\n", i, methods[i])
+		embeds = append(embeds, fmt.Sprintf("E%d", i))
+	}
+	sp.Files = append(sp.Files, SrcFile{Name: "iface.go", Decls: "type I interface{ " + strings.Join(embeds, "; ") + " }\n"})
+	sp.Ifaces = []IfaceCase{{Name: "I", Src: "type I interface{ " + strings.Join(methods, "; ") + " }  // one file per import, mode " + mode, Tags: tags, Scope: "S-imp"}}
+	return sp
+}
+
+// scopeImp: all ordered selections of 1..k packages from the pool × source alias modes.
 func scopeImp(k int, aliasModes bool) []*SrcPkg {
 	var pkgs []*SrcPkg
 	idx := 0
 	var sel []string
 	var rec func()
 	emit := func(mode string) {
-		dir := fmt.Sprintf("s/imp_%d", idx)
+		pkgs = append(pkgs, impPkg(fmt.Sprintf("s/imp_%d", idx), append([]string{}, sel...), mode))
 		idx++
-		sp := &SrcPkg{Dir: dir, Name: "src"}
-		var methods []string
-		var tags []string
-		for i, key := range sel {
-			alias := ""
-			switch mode {
-			case "alias-unique":
-				alias = fmt.Sprintf("al%d", i)
-			case "alias-clash": // alias equal to another selected package's name
-				alias = depName(sel[(i+1)%len(sel)])
-				if alias == depName(key) {
-					alias = ""
-				}
-			case "alias-first":
-				if i == 0 {
-					alias = "first"
-				}
-			}
-			al := map[string]string{}
-			if alias != "" {
-				al[key] = alias
-			}
-			tname := fmt.Sprintf("X%d", i)
-			tn := "T"
-			if std, ok := map[string]string{"time": "Time", "sync": "Locker", "text/template": "Template", "html/template": "Template"}[key]; ok {
-				tn = std
-			}
-			sp.Files = append(sp.Files, SrcFile{Name: fmt.Sprintf("f%d.go", i), Aliases: al,
-				Decls: fmt.Sprintf("type %s = @{%s}.%s\n", tname, key, tn)})
-			methods = append(methods, fmt.Sprintf("%c(@{%s}.%s)", 'A'+i, key, tn))
-			tags = append(tags, "imp:"+key)
-		}
-		tags = append(tags, "impmode:"+mode, "impseq:"+strings.Join(sel, ","))
-		// the interface itself lives in a file that imports all packages with distinct
-		// aliases only when needed; to keep same-named packages importable unaliased we
-		// declare one single-method interface per file and embed them.
-		var embeds []string
-		for i := range sel {
-			sp.Files[i].Decls += fmt.Sprintf("type E%d interface{ %s }\n", i, methods[i])
-			embeds = append(embeds, fmt.Sprintf("E%d", i))
-		}
-		sp.Files = append(sp.Files, SrcFile{Name: "iface.go", Decls: "type I interface{ " + strings.Join(embeds, "; ") + " }\n"})
-		sp.Ifaces = []IfaceCase{{Name: "I", Src: "type I interface{ " + strings.Join(methods, "; ") + " }  // one file per import, mode " + mode, Tags: tags, Scope: "S-imp"}}
-		pkgs = append(pkgs, sp)
 	}
 	rec = func() {
 		if len(sel) > 0 {
@@ -589,9 +601,9 @@ func scopeListPkg() *SrcPkg {
 	sp.Files = []SrcFile{
 		{Name: "a.go", Decls: "type LA interface{ M(afoo int, x @{~/a/foo}.T) }\n\ntype LD interface{ D(@{~/a/foo}.T) @{~/a/foo}.T }\n"},
 		{Name: "b.go", Decls: "type LB interface{ N(y @{~/b/foo}.T) }\n"},
-		{Name: "c.go", Decls: "type LC interface{ P(s string, t @{time}.Time) error }\n\ntype LE[T any] interface{ Q(T) (T, error) }\n\ntype LF interface{ R(Loc) }\n"},
+		{Name: "c.go", Decls: "type LC interface{ P(s string, t @{time}.Time) error }\n\ntype LE[T any] interface{ Q(T) (T, error) }\n\ntype LF interface{ R(Loc) }\n\ntype LG = interface{ Do(int) }\n\ntype LH = interface{ Do(s string) error }\n"},
 	}
-	for _, n := range []string{"LA", "LB", "LC", "LD", "LE", "LF"} {
+	for _, n := range []string{"LA", "LB", "LC", "LD", "LE", "LF", "LG", "LH"} {
 		sp.Ifaces = append(sp.Ifaces, IfaceCase{Name: n, Scope: "S-list"})
 	}
 	return sp
@@ -635,6 +647,8 @@ func scopeListArgs() [][]string {
 	}
 	// duplicates of the same interface under two mock names
 	out = append(out, []string{"LA", "LA:Second"}, []string{"LF:One", "LF:Two", "LB"})
+	// interfaces declared as aliases of interface literals whose methods share a name
+	out = append(out, []string{"LG"}, []string{"LH"}, []string{"LG", "LH"}, []string{"LH", "LG"}, []string{"LA", "LH", "LG"}, []string{"LG", "LB", "LH"})
 	return out
 }
 
